@@ -166,24 +166,25 @@ type Loaded struct {
 
 // Final is the outcome of one run.
 type Final struct {
-	K        string  `json:"k"`
-	Inst     string  `json:"inst"`
-	Run      int     `json:"run"`
-	Returned bool    `json:"returned"`
-	Hung     bool    `json:"hung"`
-	Panic    bool    `json:"panic"`
-	Err      string  `json:"err"`
-	Result   []int   `json:"result"` // the fetch result (kind fetch) or the loaded log's entries in index order
-	Res      []int   `json:"res"`    // the fetcher's result sequence as of its last event under the mutex
-	Reqs     []int   `json:"reqs"`
-	MaxGets  int     `json:"maxgets"`
-	TimedOut bool    `json:"timedout"`
-	Followed bool    `json:"followed"`
-	Elapsed  int     `json:"elapsed_ms"`
-	Loaded   *Loaded `json:"loaded"`
-	HasLog   bool    `json:"haslog"`
-	NSteps   int     `json:"nsteps"`
-	HErr     bool    `json:"herr"`
+	K        string            `json:"k"`
+	Inst     string            `json:"inst"`
+	Run      int               `json:"run"`
+	Returned bool              `json:"returned"`
+	Hung     bool              `json:"hung"`
+	Panic    bool              `json:"panic"`
+	Err      string            `json:"err"`
+	Result   []int             `json:"result"` // the fetch result (kind fetch) or the loaded log's entries in index order
+	Res      []int             `json:"res"`    // the fetcher's result sequence as of its last event under the mutex
+	Reqs     []int             `json:"reqs"`
+	MaxGets  int               `json:"maxgets"`
+	TimedOut bool              `json:"timedout"`
+	Followed bool              `json:"followed"`
+	Elapsed  int               `json:"elapsed_ms"`
+	Loaded   *Loaded           `json:"loaded"`
+	HasLog   bool              `json:"haslog"`
+	NSteps   int               `json:"nsteps"`
+	HErr     bool              `json:"herr"`
+	Sched    []json.RawMessage `json:"sched"` // the schedule the run was asked to follow (for replay)
 }
 
 // StepRec is a Step tagged with its run.
@@ -377,7 +378,14 @@ func RunInstance(ctx context.Context, s *Shape, pool *world.Pool, inst *Instance
 		fin.Loaded = &Loaded{Ents: []int{}, Heads: []int{}, Values: []int{}}
 	}
 	var steps []StepRec
+	empty := func() *sched.State { return &sched.State{Q: []sched.QItem{}, Cache: []sched.CItem{}, Res: []int{}} }
 	for i, st := range fr.Steps {
+		if st.Pre == nil {
+			st.Pre = empty()
+		}
+		if st.Post == nil {
+			st.Post = empty()
+		}
 		steps = append(steps, StepRec{K: "step", Inst: inst.Name, Run: runNo, Seq: i + 1, Step: st})
 	}
 	fin.NSteps = len(steps)
